@@ -179,6 +179,10 @@ KERNELS = [
          params=[('empty', 'Bool'), ('path_exists', 'Bool'), ('size', 'Int')], ret='Bool'),
     dict(name='setFilesHiddenSwitch', file='torf/_torrent.py', func='Torrent._set_files', pick=('kwarg', 'hidden'), params=[], ret='Bool'),
     dict(name='setFilesEmptySwitch', file='torf/_torrent.py', func='Torrent._set_files', pick=('kwarg', 'empty'), params=[], ret='Bool'),
+    # --- is_file_match (C18): the piece-size window a candidate must fall into
+    dict(name='reusePieceSizeOk', file='torf/_reuse.py', func='is_file_match', pick=('if-test-containing', 'piece_size_min'),
+         atoms={'torrent.piece_size_min': 'pmin', 'candidate.piece_size': 'cand', 'torrent.piece_size_max': 'pmax'},
+         params=[('pmin', 'Int'), ('cand', 'Int'), ('pmax', 'Int')], ret='Bool'),
     # --- the parameter tables of magnet URIs (C13): literal tuples of names; an element that is itself a tuple
     #     contributes its first component
     dict(name='magnetKnownParameters', kind='strings', file='torf/_magnet.py', func='Magnet',
